@@ -452,7 +452,7 @@ type obs struct {
 	vs       []*version
 	merged   mergeOut
 	fieldSvc map[fieldKey][]string
-	fedkeys  int // ConvertVersionedSchemas: 1 accepted, 2 refused with 'Invalid federation key', 0 anything else
+	fedkeys  int // ConvertVersionedSchemas: 1 accepted, 2 refused with 'Invalid federation key', 3 refused with '... is not federated', 0 anything else
 	queries  []qobs
 	skip     bool
 }
@@ -677,6 +677,9 @@ func main() {
 				if strings.Contains(cerr, "Invalid federation key") {
 					ob.fedkeys = 2
 					run.Hist("convert:invalid-federation-key")
+				} else if strings.Contains(cerr, "exists on another server and is not federated") {
+					ob.fedkeys = 3
+					run.Hist("convert:object-not-federated-everywhere")
 				}
 			}
 			// ---- oracle (h): federation keys.  The verdict of ConvertVersionedSchemas does not depend on how the
@@ -710,6 +713,14 @@ func main() {
 					if (cerr == "") != (cerr2 == "") {
 						failCapped(run, idx, "convert-verdict-depends-on-naming", fmt.Sprintf("original: %q; services renamed %v: %q", short(cerr, 200), names, short(cerr2, 200)), c)
 						break
+					}
+				}
+				if unf, comparable := unfederatedHolders(perSvc, ob.merged.s); comparable {
+					if cerr == "" && len(unf) > 0 {
+						failCapped(run, idx, "convert-accepts-object-not-federated-everywhere", fmt.Sprintf("%s has the object without _federation while another service federates it; ConvertVersionedSchemas accepts", unf[0]), c)
+					}
+					if ob.fedkeys == 3 && len(unf) == 0 {
+						failCapped(run, idx, "convert-refuses-objects-federated-everywhere", short(cerr, 300), c)
 					}
 				}
 				if viol, comparable := keyViolations(perSvc, ob.merged.s); comparable {
